@@ -379,7 +379,7 @@ def wave_sweep(run):
 
 
 def correspond(run):
-    n = 60 if run.tier == "quick" else 2500
+    n = 160 if run.tier == "quick" else 2500
     cases = common.load_corpus(PROP) + [gen_case(run.rng, run.tier) for _ in range(n)]
     dis, mon = run_cases(run, cases)
     wbad = wave_sweep(run)
